@@ -835,3 +835,56 @@ def monitor_c06(se, stats):
                             key[0], key[1], len(cch["unacked"]), lim, st["op"])})
         prev = cur
     return viol
+
+
+def _admits(w, size):
+    """qos window [prefetch-count, prefetch-size, count, size] has room for one more delivery of `size` bytes
+    (qos.go Inc: 0 = unlimited)"""
+    pc, ps, cc, cs = w
+    return (pc == 0 or cc + 1 <= pc) and (ps == 0 or cs + size <= ps)
+
+
+def monitor_c07(se, stats):
+    """No stall: at quiescence (no wake-up token pending, nothing in flight - the harness only snapshots then) no queue
+    shows a waiting message together with a started consumer on an open, flow-active channel whose windows all admit
+    that message."""
+    viol = []
+    rabbit = se["cfg"].get("rabbit", True)
+    sizes = {}
+    for i, st in enumerate(se["steps"]):
+        if st["snap"] == ["WEDGED"]:
+            break
+        subs = [x.strip() for x in st["op"][6:].split("|")] if st["op"].startswith("MULTI ") else [st["op"]]
+        for op in subs:
+            f = op.split()
+            if f[0] == "PUB":
+                sizes[f[8]] = sum(int(x) for x in f[9].split("+")) if f[9] not in ("0", "-") else 0
+        cur = parse_snap(st["snap"])
+        for qn, q in cur["queues"].items():
+            stats["queue_states"] = stats.get("queue_states", 0) + 1
+            if not q["ready"] or not q["active"]:
+                continue
+            stats["queue_states_with_ready"] = stats.get("queue_states_with_ready", 0) + 1
+            head = q["ready"][0]
+            size = sizes.get(head, 0)
+            for ent in q["consumers"]:
+                ch_s, tag = ent.split(":", 1)
+                c, h = (int(x) for x in ch_s.split("."))
+                ch = cur["chans"].get((c, h))
+                if ch is None or ch["st"] != 1 or not ch["flow"]:
+                    continue
+                cm = next((x for x in ch["consumers"] if x["tag"] == tag and x["queue"] == qn), None)
+                if cm is None or cm["status"] != 0:
+                    continue
+                stats["pairs_checked"] = stats.get("pairs_checked", 0) + 1
+                if cm["noack"]:
+                    room = True
+                else:
+                    ws = [ch["qos"], cm["own"]] if rabbit and cm["own"] is not None else [ch["qos"], cur["conns"].get(c, {"qos": [0, 0, 0, 0]})["qos"]]
+                    room = all(_admits(w, size) for w in ws)
+                    if not room:
+                        stats["pairs_blocked_by_window"] = stats.get("pairs_blocked_by_window", 0) + 1
+                if room:
+                    viol.append({"step": i, "kind": "stall", "what": "stall: queue %s holds %d waiting message(s) (head %s, %d bytes) while consumer %s on channel %d.%d is started, flow on, windows %s admit it - and the broker is idle (after `%s`)" % (
+                        qn, len(q["ready"]), head, size, tag, c, h, "n/a" if cm["noack"] else ws, st["op"])})
+    return viol
